@@ -218,26 +218,38 @@ class GdbSession:
     def mark(self):
         return len(self.gdb.STATE.written), len(self.gdb.STATE.executed)
 
-    def new_connection(self, key, side):
+    def new_connection(self, key, side, owner_of=None):
+        """owner_of: key of an earlier (destroyed) connection of the same side whose wl_display / wl_client struct address
+        malloc hands out again - now pointing to this connection, which is somewhere else"""
         w = self.world
         addr = w.connection()
         c = {'addr': addr, 'side': side}
-        if side == 'client':
-            c['display'] = w.display(addr)
-        else:
-            c['client'] = w.client(addr)
+        self._owner(c, side, addr, owner_of)
         self.conns[key] = c
         return c
 
-    def reuse_address(self, key, old_key, side):
-        """a later connection at the same address (libwayland freed and re-allocated the wl_connection)"""
+    def _owner(self, c, side, addr, owner_of):
         w = self.world
+        old = self.conns.get(owner_of) if owner_of is not None else None
+        if side == 'client':
+            if old is not None and 'display' in old:
+                off = self.gdb.S_WL_DISPLAY.field('connection').bitpos // 8
+                w.mem.write(old['display'] + off, struct.pack('<Q', addr))
+                c['display'] = old['display']
+            else:
+                c['display'] = w.display(addr)
+        else:
+            if old is not None and 'client' in old:
+                w.mem.write(old['client'], struct.pack('<Q', addr))
+                c['client'] = old['client']
+            else:
+                c['client'] = w.client(addr)
+
+    def reuse_address(self, key, old_key, side, owner_of=None):
+        """a later connection at the same address (libwayland freed and re-allocated the wl_connection)"""
         addr = self.conns[old_key]['addr']
         c = {'addr': addr, 'side': side}
-        if side == 'client':
-            c['display'] = w.display(addr)
-        else:
-            c['client'] = w.client(addr)
+        self._owner(c, side, addr, owner_of)
         self.conns[key] = c
         return c
 
